@@ -33,8 +33,8 @@ func init() {
 	register(&Rule{ID: "C13.off", Floor: 10,
 		Text: "untagged build: every path helper of vfs_ostype_off.go is a positional forward of its own parameters (file system excluded) to the same-named function of path/filepath (os.IsPathSeparator, the linked volumeNameLen) and returns its results unchanged",
 		Run:  c13Off})
-	register(&Rule{ID: "C14.tv", Floor: 12, Also: []string{"C07", "C01"},
-		AlsoOnly: map[string][]string{"C01": {"WalkDir", "walkDir", "ReadDir"}}, AlsoFloor: map[string]int{"C01": 2},
+	register(&Rule{ID: "C14.tv", Floor: 12, Also: []string{"C07", "C01", "C11"},
+		AlsoOnly: map[string][]string{"C01": {"WalkDir", "walkDir", "ReadDir"}, "C11": {"cleanGlobPath", "WalkDir", "walkDir", "Glob", "glob"}}, AlsoFloor: map[string]int{"C01": 2, "C11": 4},
 		Text: "Glob / globWithLimit / glob / hasMeta / cleanGlobPath, WalkDir / walkDir and ReadDir are structurally identical, after the same normalisation and the call-correspondence table (os.X(a) ~ vfs.X(a), os.Open(n) ~ OpenFile(n, O_RDONLY, 0), fs.FileInfoToDirEntry(i) ~ &statDirEntry{i}, sort by Name), to filepath.Glob..., filepath.WalkDir / walkDir and os.ReadDir of this toolchain",
 		Run:  func(rc *RuleCtx) { tvRule(rc, "C14") }})
 	register(&Rule{ID: "C12.tv", Floor: 1,
